@@ -6,7 +6,11 @@ use crate::graph::Direction;
 use crate::graph::lpg::LpgStore;
 use grafeo_common::types::{PropertyKey, Value};
 use regex::Regex;
-use std::collections::{BTreeMap, HashMap};
+#[cfg(not(kani))]
+use std::collections::BTreeMap;
+use std::collections::HashMap;
+#[cfg(kani)]
+use grafeo_common::utils::hash::FxHashMap as BTreeMap;
 use std::sync::Arc;
 
 /// A predicate for filtering rows.
